@@ -414,10 +414,16 @@ fn apply_op(ft: &mut FixedTransaction, m: &mut Model, op: Op) -> Result<(), (Str
             let before = ft.witness_set().vkeys().map(|v| v.len()).unwrap_or(0);
             KEYS.with(|k| ft.sign_and_add_vkey_signature(&k.0)).map_err(|e| ("C04/sign-fails".to_string(), format!("{:?}", e)))?;
             let vk = ft.witness_set().vkeys().ok_or(("C04/signature-not-added".to_string(), String::new()))?;
-            let w = (0..vk.len()).map(|i| vk.get(i)).find(|w| KEYS.with(|k| w.vkey().public_key().as_bytes() == k.0.to_public().as_bytes())).ok_or(("C04/signature-not-added".to_string(), format!("{} witnesses before", before)))?;
-            if !verify(&w.vkey().public_key().as_bytes(), &w.signature().to_bytes(), &m.hash) {
-                return Err(("C04/signature-not-over-the-hash-of-the-raw-body/vkey".to_string(), format!("body {}", hx(&m.body))));
+            // the key may have signed an earlier body too (sign, set_body, sign): the witness looked
+            // for is one of this key whose signature is over the current hash
+            let mine: Vec<Vkeywitness> = (0..vk.len()).map(|i| vk.get(i)).filter(|w| KEYS.with(|k| w.vkey().public_key().as_bytes() == k.0.to_public().as_bytes())).collect();
+            if mine.is_empty() {
+                return Err(("C04/signature-not-added".to_string(), format!("{} witnesses before", before)));
             }
+            let w = match mine.iter().find(|w| verify(&w.vkey().public_key().as_bytes(), &w.signature().to_bytes(), &m.hash)) {
+                Some(w) => w.clone(),
+                None => return Err(("C04/signature-not-over-the-hash-of-the-raw-body/vkey".to_string(), format!("body {}", hx(&m.body)))),
+            };
             touch(m, 0, tuple_of_vkw(&w));
         }
         Op::SignIcarus | Op::SignDaedalus => {
@@ -425,10 +431,14 @@ fn apply_op(ft: &mut FixedTransaction, m: &mut Model, op: Op) -> Result<(), (Str
             r.map_err(|e| ("C04/sign-fails".to_string(), format!("{:?}", e)))?;
             let bs = ft.witness_set().bootstraps().ok_or(("C04/signature-not-added".to_string(), String::new()))?;
             let pk = KEYS.with(|k| k.1.to_public().to_raw_key().as_bytes());
-            let w = (0..bs.len()).map(|i| bs.get(i)).find(|w| w.vkey().public_key().as_bytes() == pk).ok_or(("C04/signature-not-added".to_string(), String::new()))?;
-            if !verify(&w.vkey().public_key().as_bytes(), &w.signature().to_bytes(), &m.hash) {
-                return Err(("C04/signature-not-over-the-hash-of-the-raw-body/bootstrap".to_string(), format!("body {}", hx(&m.body))));
+            let mine: Vec<BootstrapWitness> = (0..bs.len()).map(|i| bs.get(i)).filter(|w| w.vkey().public_key().as_bytes() == pk).collect();
+            if mine.is_empty() {
+                return Err(("C04/signature-not-added".to_string(), String::new()));
             }
+            let w = match mine.iter().find(|w| verify(&w.vkey().public_key().as_bytes(), &w.signature().to_bytes(), &m.hash)) {
+                Some(w) => w.clone(),
+                None => return Err(("C04/signature-not-over-the-hash-of-the-raw-body/bootstrap".to_string(), format!("body {}", hx(&m.body)))),
+            };
             touch(m, 2, tuple_of_boot(&w));
         }
         Op::SetBody => {
